@@ -25,7 +25,9 @@ def bbox_intersections(seta, setb):
                 intersections.append((o, o2))
 
     def remove_from(o, bounds, lst):
-        dequefilter(lst, lambda i: i[0] != o)
+        # By identity: two shapes may be equal (Segment.__eq__ compares
+        # coordinates, with a tolerance) and still end at different places
+        dequefilter(lst, lambda i: i[0] is not o)
 
     for a in seta:
         bounds = a.bounds()
